@@ -43,6 +43,7 @@ THEOREMS = {
     'C16_capture_context': 'one context (left normally or by an exception) yields exactly the reports made directly in its body and restores captured_errors and the enclosing frames exactly',
     'C16_direct_body': 'the reference "reports made directly in the body" depends on the body only',
     'C16_wellBracketed_balanced': 'every history of the well-bracketed grammar satisfies the decidable hypothesis (induction over well-bracketed histories)',
+    'C16_balanced_iff_wellBracketed': 'the decidable bracket check and the well-bracketed grammar describe the same histories',
     'C16_history_refines_spec': 'every report of every history does what the reference semantics says from nesting depth and strict flag alone; error_code ends as the reference says',
     'C16_error_code_monotone': 'error_code is unchanged or 2, is 2 once a warning was printed, and never decreases along a history',
     'C16_location_stable': 'errors are built from the mutable parse state at the moment of the report and keep that location whatever follows',
